@@ -293,6 +293,16 @@ def ty_requests(ctx, tables):
                     if kind == 'race' and k >= 6000 and (k // stride) % 3 == 0:
                         reqs.append((g, age, ev, mmss(k)))
                         reqs.append((g, age, ev, mmss(k, 1)))
+                        reqs.append((g, age, ev, mmss(k).replace(':', '.')))          # the dotted forms the race parser turns into colons: m.ss.xx
+                        reqs.append((g, age, ev, mmss(k, 1).replace(':', '.')))
+                    if kind == 'race' and bv >= 2400 and (k // stride) % 3 == 1:
+                        # an hour or more (the long walks), also reached by scaling the mark: h:mm:ss.xx, h.mm.ss.x, mixed
+                        for kk in (k, k + 360000 - lo, 2 * k):
+                            if kk < 360000: continue
+                            h_, r_ = divmod(kk, 360000)
+                            hms = '%d:%02d:%02d.%02d' % (h_, r_ // 6000, r_ % 6000 // 100, r_ % 100)
+                            for t_ in (hms, hms.replace(':', '.'), hms[:-1].replace(':', '.'), hms.replace(':', '.', 1)):
+                                reqs.append((g, age, ev, t_))
                     if k % 100 == 0 and (k // 100) % 2 == 0:
                         reqs.append((g, age, ev, k // 100)); reqs.append((g, age, ev, str(k // 100)))
                 # the thresholds of the manual-timing rule: marks that ARE 40, 60, 80, 300 (the JS confusion)
